@@ -783,6 +783,25 @@ def run_resample(p):
                       f'/{par(shp[0])}x{par(shp[1])}->{par(out[0])}x{par(out[1])}/{"sq" if shp[0] == shp[1] else "nonsq"}')
 
 
+def run_bin(p):
+    """detector.bindown / detector.tile, documented as an adjoint pair: <y, bindown(x, f, 'avg')> = <tile(y, f, 'sum'), x> and
+    <y, bindown(x, f, 'sum')> = <tile(y, f, 'avg'), x>, N-d arrays, scalar and per-axis factors (numeric only: no Lean model)"""
+    from prysm import detector
+    r = _rng(p['seed'])
+    fac = p['factor']
+    shp = tuple(p['shape'])
+    x = r.normal(size=shp)
+    f = fac if isinstance(fac, int) else tuple(fac)
+    mode, sc = [('avg', 'sum'), ('sum', 'avg')][p['pair']]
+    L = layfn(p)
+    Ax = detector.bindown(L(x) if p.get('layout') in (None, 'C', 'F') else x, f, mode)
+    y = r.normal(size=Ax.shape)
+    By = np.array(detector.tile(y, f, sc))
+    gap, lhs, rhs = adj_gap(x, y, Ax, By)
+    return Result(gap <= TOL_ADJ and By.shape == shp, f'<y,bindown x>={lhs:.12g} <tile y,x>={rhs:.12g} rel gap {gap:.3e}',
+                  nontrivial=x.size > 1, tag=f'{len(shp)}d/{"scalar" if isinstance(fac, int) else "peraxis"}/{mode}-{sc}')
+
+
 def _fd_vjp(fwd, x, d, g, h):
     """Richardson directional derivative of z -> <g, fwd(z)> at x along d"""
     return richardson(lambda t: float(np.sum(g * fwd(x + t * d))), h)
@@ -969,7 +988,7 @@ def run_history(p):
 
 RUN = {'mdft': run_mdft, 'fixed': run_fixed, 'fpm': run_fpm, 'babinet': run_babinet, 'intensity': run_intensity,
        'phase': run_phase, 'modes': run_modes, 'softmax': run_softmax, 'activation': run_activation, 'sg': run_sg,
-       'cost': run_cost, 'dm': run_dm, 'history': run_history, 'resample': run_resample}
+       'cost': run_cost, 'dm': run_dm, 'history': run_history, 'resample': run_resample, 'bin': run_bin}
 
 
 # ------------------------------------------------------------------------------------------------
@@ -1091,6 +1110,12 @@ def _gen_cases(r, item, k):
         elif item == 'cost':
             out.append({'kind': ['mse', 'bgie', 'nll'][i % 3], 'shape': _shape(r, 2, 6), 'masked': bool((i // 3) % 2),
                         'scalar_yhat': (i % 3 == 2 and (i // 6) % 2 == 1), 'seed': seed})
+        elif item == 'bin':
+            nd = 2 + (i % 3 == 2)
+            fac = [int(r.integers(1, 4)) for _ in range(nd)]
+            if i % 2 == 0:
+                fac = [fac[0]] * nd
+            out.append({'shape': [int(f_ * r.integers(1, 5)) for f_ in fac], 'factor': fac[0] if i % 2 == 0 else fac, 'pair': (i // 2) % 2, 'seed': seed})
         elif item == 'resample':
             shp = _shape(r, 2, 9)
             form = ['tuple', 'float', 'list', 'tuple', 'int', 'npfloat', 'tuple'][i % 7]
@@ -1224,6 +1249,12 @@ def small_cases(item):
                     yield {'kind': kind, 'shape': s, 'masked': mk, 'scalar_yhat': False, 'seed': 7}
                     if kind != 'nll':
                         yield {'kind': kind, 'shape': s, 'masked': mk, 'scalar_yhat': False, 'seed': 7, 'dtype': 'int', 'layout': 'F'}
+    elif item == 'bin':
+        for f in (1, 2, 3, [2, 3], [3, 1]):
+            for k in ([1, 1], [2, 1], [2, 3]):
+                fl = [f, f] if isinstance(f, int) else f
+                for pair in (0, 1):
+                    yield {'shape': [fl[0] * k[0], fl[1] * k[1]], 'factor': f, 'pair': pair, 'seed': 7}
     elif item == 'resample':
         for tot in range(2, 12):
             for m, n in itertools.product(range(1, 7), repeat=2):
@@ -1254,9 +1285,9 @@ def small_cases(item):
                 yield {'ifn_shape': [n, n1], 'Nout': Nout, 'Nact': 3, 'sep': [2, 3], 'shift': sh, 'upsample': up, 'wfe': wfe, 'seed': 7}
 
 
-ITEMS = ['mdft', 'fixed', 'fpm', 'babinet', 'intensity', 'phase', 'modes', 'softmax', 'activation', 'sg', 'cost', 'dm', 'history', 'resample']
+ITEMS = ['mdft', 'fixed', 'fpm', 'babinet', 'intensity', 'phase', 'modes', 'softmax', 'activation', 'sg', 'cost', 'dm', 'history', 'resample', 'bin']
 QUICK = {'mdft': 30, 'fixed': 40, 'fpm': 42, 'babinet': 30, 'intensity': 12, 'phase': 12, 'modes': 12, 'softmax': 48,
-         'activation': 24, 'sg': 40, 'cost': 36, 'dm': 42, 'history': 44, 'resample': 42}
+         'activation': 24, 'sg': 40, 'cost': 36, 'dm': 42, 'history': 44, 'resample': 42, 'bin': 24}
 
 
 def _safe_run(item, p):
@@ -1390,15 +1421,20 @@ MANIFEST_ENTRY = {
              'bias-and-gain-invariant error in full (envelope argument made rigorous) -- the last seven through the recognised closed forms '
              '(gen_* pins: a consistent change of convention in both forward and backward of those is reported as a tie failure).  '
              'Masked cost functions for ALL masks: scatter-into-zeros is the adjoint of x[mask] (mask_compress_scatter_adjoint), hence scatter(grad(x[mask])) '
-             'is the gradient of cost(x[mask]) for any differentiable cost (masked_cost_grad), instantiated for mse / bgie / nll -- tied to the source by the '
-             'recognised compress / scatter SHAPE of the masked branches (flag), not by a translated term.  '
+             'is the gradient of cost(x[mask]) for any differentiable cost (masked_cost_grad); mse / bgie / nll_masked_grad are stated over the TRANSLATED masked '
+             'branches (symbolic execution of the `mask is not None` path): gen_mse_masked is RELATIVE (the translated masked cost is an exact quadratic whose linear '
+             'coefficient is the translated scattered gradient, any normalisation count); gen_bgie_masked / gen_nll_masked pin the translated branch to compress, '
+             'translated unmasked pair on the kept samples, scatter.  fourier_resample_real_adjoint: the resampler pair AS RETURNED (.real inside), real data.  '
              'TRANSLATED every run: Q / shift / shape wiring of focus/unfocus_fixed_sampling(_backprop) and to_fpm_and_back(_backprop) by symbolic '
              'execution (backprop legs equal the forward legs up to ring normalisation, for all arguments; tuple-valued samples, method=mdft, '
              'return_more=False, ndarray mask -- the other argument forms are exercised numerically only), SpatialGradient2D slice statements, '
              'cost / activation / softmax / encoder / Wavefront-node closed forms, pad/crop offsets, tensordot axes, the ordered operation lists of '
              'DM.render and DM.render_backprop (each step the adjoint of the mirrored one), the operation chains / roll amounts / scale factors / matrix-DFT '
-             'geometry of fourier_resample and fourier_resample_backprop (gen_resample_chain, gen_resample_shifts, gen_resample_scale), live-attribute obligation (no backprop reads state its '
-             'forward does not).  Recognised-shape FLAGS only (Bool, no Lean content): call wiring (*Wired), masked-cost branches, broadcasting '
+             'geometry of fourier_resample and fourier_resample_backprop (gen_resample_chain, gen_resample_shifts, gen_resample_scale), the masked branch of each cost '
+             'function as a term, the argument roles / pass-through / return_more order / dx labels of Wavefront.focus_fixed_sampling_backprop and '
+             'Wavefront.to_fpm_and_back_backprop against their forward wrappers (gen_wavefront_ffs_wrapper, gen_wavefront_fpm_wrapper), live-attribute obligation '
+             'per node AND over every forward/backprop method pair discovered in the anchor modules (gen_live_attributes_all) (no backprop reads state its '
+             'forward does not).  Recognised-shape FLAGS only (Bool, no Lean content): call wiring (*Wired), broadcasting '
              'over the levels axis, forward shapes of softmax / Gumbel / encoder / intensity.  COMPARED on every case: the property\'s own '
              'predicate on the real code (dot product at 1e-10; Richardson differences at 1e-6 plus the float64 resolution floor) and the real '
              'backprop against the Lean model given the forward\'s OWN ingredients (cached bases, DM transfer function / lattice / offsets).  '
@@ -1408,7 +1444,8 @@ MANIFEST_ENTRY = {
              '(interpolation + tilt Jacobian); tested at 5e-2 on smooth upstream gradients, no theorem.  Geometries on which DM.__init__ / render '
              'themselves fail (non-square Nact, pad one axis and crop the other) are recorded, not judged.  The model-level theorems '
              '(mdft_model_adjoint, fpm_model_adjoint, driver_pipelines_agree) are statements about the executable model only.  Not covered: '
-             'floating-point error, scipy.fft internals (the DFT contract is an assumption), complex modes.'),
+             'floating-point error, scipy.fft internals (the DFT contract is an assumption), complex modes.  detector.bindown / tile (documented adjoint pair, '
+             'avg<->sum) is tested by dot products only (no model, no theorem).'),
     'note': ('Trusted: Lean kernel + propext/Classical.choice/Quot.sound; tools/gen_c06.py (symbolic executor and expression translators; fallbacks '
              'are printed as TIE-DEGRADED); NumPy matmul/tensordot/slicing and scipy.fft semantics; tolerances above.  Stand-alone models of forward '
              'semantics (Q formula, basis formula, DM lattice, closed forms of costs and activations) are compared as non-blocking fidelity notes: '
